@@ -148,9 +148,16 @@ def run_model_and_steps(chk, prop, tier, pkey=None):
             chk.add_tlc(res, "YkConc4 config %s: split under a parent / interior insert / interior shift-delete / collapse + new root vs readers (LinOK, RootOpsOK, Quiescent, Termination under WF)" % cfg)
             if not res.ok:
                 chk.error("YkConc4 model check %s did not pass (says nothing about the code): %s" % (cfg, tlc_tail(res, 12)))
+        # next layers (YkConc5): descent through a link, creation of a layer, removal of a layer whose root became empty, slot reuse
+        for cfg in (["a", "b", "c"] if tier == "quick" else ["a", "b", "c", "d", "e"]):
+            res = tlc("MC_Conc5", "MC_Conc5_%s.cfg" % cfg, workers=8, timeout=900)
+            chk.add_tlc(res, "YkConc5 config %s: next layers at hook grain vs 2 other threads (LinOK, DescentOK, Quiescent, Termination under WF)" % cfg)
+            if not res.ok:
+                chk.error("YkConc5 model check %s did not pass (says nothing about the code): %s" % (cfg, tlc_tail(res, 12)))
         run_steps2(chk, prop, tier, pk)
         run_steps3(chk, prop, tier, pk)
         run_steps4(chk, prop, tier, pk)
+        run_steps5(chk, prop, tier, pk)
     if pk in ("C04", "C06"):
         # scans over several borders collecting (version, node) pairs vs splits, interior insert, collapse, removes (YkConc4 programs g-j)
         for cfg in ((["g", "i"] if pk == "C04" else ["g", "h"]) if tier == "quick" else ["g", "h", "i", "j"]):
@@ -351,6 +358,61 @@ def run_steps4(chk, prop, tier, pk, progs=None):
             at = int(m.group(1)) if m else 0
             chk.cov["divergences"] = chk.cov.get("divergences", 0) + 1
             log("DIVERGENCE property=%s at=step-level split/collapse %s event %d: %s (the code's access sequence differs from YkConc4; not a violation)" % (
+                prop, prog, at, lines[at - 1][:200] if 0 < at <= len(lines) else ""))
+
+
+STEP5 = [("rem:101,get:101,put:102", "1,100", "101"), ("put:101,put:102,get:101", "1", ""), ("rem:101,put:2,get:101", "1", "101"),
+         ("rem:101,rem:102,put:100", "1,100", "101,102"), ("rem:101,put:101,get:101", "1", "101"), ("put:102,rem:101,get:102", "1,2", "101")]
+
+
+def run_steps5(chk, prop, tier, pk):
+    """S: next layers of YkConc5 on the real code (fan-out 15): descent through a link, layer creation, removal of a layer whose root
+    became empty, reuse of the link's slot, under random and PCT schedules; every logged access must be the enabled model step with the
+    same value (TraceConc5); LinOK, DescentOK and Quiescent are evaluated on every state of the accepted executions."""
+    import os, re
+    from common import tlc, tlc_tail, build, run, BUILD
+    from tracecheck import write_cfg
+    exe = build("stepdrv5", ["stepdrv5.cpp"], sessions=16)
+    nruns = 15 if tier == "quick" else 150
+    for pi, (prog, i0, i1) in enumerate(STEP5[:4] if tier == "quick" else STEP5):
+        out = ""
+        bad = False
+        for sched in ("random", "pct"):
+            rc, o, err = run([exe, "prog=" + prog, "init0=" + i0, "init1=" + i1, "runs=%d" % nruns, "seed=%d" % seed(), "sched=" + sched], timeout=300)
+            lines = o.splitlines()
+            if lines and '"op":"fault"' in lines[-1]:
+                chk.violation("fault", "implementation faulted in step-level layer run %s: %s" % (prog, lines[-1]), chk.save_replay("fault_step5_%d.ndjson" % pi, "\n".join(lines[-30:])))
+                bad = True
+                break
+            if rc != 0 or any('"e":"abort"' in x for x in lines[-2:]):
+                if prop == "C09" and any('"e":"abort"' in x for x in lines[-2:]):
+                    chk.violation("deadlock", "step-level layer run %s did not complete: %s" % (prog, lines[-1][:300]), chk.save_replay("abort_step5_%d.ndjson" % pi, "\n".join(lines[-200:])))
+                else:
+                    chk.notes.append("stepdrv5 %s did not complete: %s" % (prog, (lines[-1] if lines else err)[:200]))
+                bad = True
+                break
+            out += o if not out else "\n".join(lines[1:]) + "\n"
+        if bad:
+            continue
+        lines = out.splitlines()
+        tr = os.path.join(BUILD, "traces", "step5_%s_%d.ndjson" % (pk, pi))
+        open(tr, "w").write(out)
+        cfg = write_cfg(os.path.join(BUILD, "cfg", "tc5_%s_%d.cfg" % (pk, pi)), constants={"F": 15, "Keys": "{1, 2, 100, 101, 102}", "Threads": "{0, 1, 2}", "Prog": "<- ProgT",
+                        "Init0": "{1}", "Init1": "{}", "NO_CHILD_ROOT_CLEAR": "FALSE", "NO_DESCENT_RECHECK": "FALSE"},
+                        invariants=["LinOK", "DescentOK", "B0NonEmpty", "Quiescent"], constraint="Record")
+        res = tlc("TraceConc5", cfg, env={"TRACE": tr}, workers=1, timeout=600, deque=True)
+        chk.add_tlc(res, "step-level conformance of next layers (descent, layer creation / removal, slot reuse), programs %s on B0={%s} layer={%s} (%d runs, %d events)" % (prog, i0, i1, 2 * nruns, len(lines)))
+        if res.ok:
+            chk.traces += 2 * nruns
+            chk.cov["step_events_conforming"] = chk.cov.get("step_events_conforming", 0) + len(lines)
+        elif res.violated in ("LinOK", "DescentOK", "Quiescent"):
+            rp = chk.save_replay("step5_%d_%s.txt" % (pi, res.violated), tlc_tail(res, 60))
+            chk.violation("step-trace-" + res.violated, "%s violated on a real execution (%s) followed step by step in YkConc5" % (res.violated, prog), rp)
+        else:
+            m = re.search(r'<<"STUCK", (\d+)', res.out)
+            at = int(m.group(1)) if m else 0
+            chk.cov["divergences"] = chk.cov.get("divergences", 0) + 1
+            log("DIVERGENCE property=%s at=step-level layers %s event %d: %s (the code's access sequence differs from YkConc5; not a violation)" % (
                 prop, prog, at, lines[at - 1][:200] if 0 < at <= len(lines) else ""))
 
 
